@@ -4,7 +4,7 @@ from checks import docs
 
 ID = "C02"
 LEAN_MODULES = ["Econf.Props.C02"]
-THEOREMS = []
+THEOREMS = ["Econf.C02_parse_render", "Econf.C02_parse_render_plain", "Econf.C02_entry_item", "Econf.parse_item", "Econf.splitLines_render"]
 RULE = ("grammar-directed documents of DESIGN.md 5.1 (0..60 items, every spelling choice drawn at random) x 7 delimiter sets x 3 comment "
         "sets x final newline present/absent; non-trivial = at least one entry or section; distinct by file content and sets")
 PATH = b"/etc/app/doc.conf"
